@@ -148,3 +148,44 @@ func TestC01RangeCheckOverflow(t *testing.T) {
 		t.Fatalf("read at offset %d beyond the volume reached the replicas: n=%d err=%v calls=%v", off, n, err, w.TakeCalls())
 	}
 }
+
+// C18: AddReplica drops the controller lock around factory.Create; the replication factor is
+// verified only before that window.  Two additions overlapping there — the first one completing its
+// rebuild before the second Create returns — leave the volume with more data replicas than RF.
+func TestC18ConcurrentAddsExceedRF(t *testing.T) {
+	os.Setenv("REPLICATION_FACTOR", "3")
+	w := fake.NewWorld()
+	c := controller.NewController(controller.WithName("v"), controller.WithBackend(&fake.Factory{W: w}),
+		controller.WithFrontend(&fake.Frontend{W: w}, "127.0.0.1"), controller.WithRF(3))
+	reg(c, "A", 5, "closed")
+	reg(c, "B", 5, "closed")
+	for _, a := range []string{"A", "B", "C", "D"} {
+		w.Reps["tcp://"+a+":9502"] = &fake.Rep{Chain: []string{"volume-head-000.img"}, Rev: 5, Size: 1 << 20}
+	}
+	if err := c.Start("tcp://A:9502"); err != nil {
+		t.Fatal(err)
+	}
+	if err := c.AddReplica("tcp://B:9502"); err != nil {
+		t.Fatal(err)
+	}
+	c.SetReplicaMode("tcp://B:9502", types.RW)
+	// C and D are added concurrently: both pass the checks, both sit in Create
+	res := map[string]chan error{}
+	for _, a := range []string{"tcp://C:9502", "tcp://D:9502"} {
+		w.Gate[a] = make(chan struct{})
+		ch := make(chan error, 1)
+		res[a] = ch
+		go func(a string) { ch <- c.AddReplica(a) }(a)
+		<-w.Entered
+	}
+	close(w.Gate["tcp://C:9502"])
+	if err := <-res["tcp://C:9502"]; err != nil {
+		t.Fatal(err)
+	}
+	c.SetReplicaMode("tcp://C:9502", types.RW) // C's rebuild completes
+	close(w.Gate["tcp://D:9502"])
+	err := <-res["tcp://D:9502"]
+	if n := len(c.ListReplicas()); n > 3 {
+		t.Fatalf("%d data replicas with replication factor 3 (second AddReplica returned %v): %v", n, err, c.ListReplicas())
+	}
+}
